@@ -1,5 +1,5 @@
 """What MANIFEST.json claims.  Edit here, then run bin/mkmanifest."""
-HOOK_COMMITS = []
+HOOK_COMMITS = ["aff287a"]
 
 TRUST = "trusted: TLC and its Json module, the Rust driver's projection (public API calls only)"
 
@@ -26,6 +26,30 @@ CLAIMED = {
                         "(C08 covers reference shifting), one range per conditional format; only in-range arguments.",
         "technique": "explicit TLA+ spec (Sheet.tla) model-checked with TLC; TLC-generated behaviours replayed on the "
                      "library; recorded traces validated by TLC against the same actions",
+    },
+    "C12": {
+        "domains": ["sst"],
+        "text": "TLC checks SST.tla (workbook objects, clones, reloads, saves) for OnlyReachable / Decodes / SaveIsPure over all "
+                "histories of 6 operations (thorough 7) and refutes the shared-table design; every TLC behaviour of depth 4 "
+                "ending in a save plus seeded random histories (up to 8 workbook objects, both writers) run on the real "
+                "library, every written package is searched part by part for every string of the universe by an "
+                "independent decoder, and TLC validates each step against the specification.",
+        "note": TRUST + ", pydec/sst_view.py (python zipfile + expat). Strings are four marker strings that occur nowhere "
+                        "else in a package; text cells only in column A of two sheets.",
+        "technique": "explicit TLA+ spec (SST.tla) model-checked with TLC; TLC-generated histories replayed on the library; "
+                     "recorded traces validated by TLC",
+    },
+    "C16": {
+        "domains": ["sst"],
+        "text": "TLC checks ConcSave.tla (one action per linearisation point of make_buffer) over all interleavings of 2-3 "
+                "savers for five string-set scenarios: own strings, part iff relationship, nothing foreign, termination; "
+                "and refutes the shared-table design. Every complete interleaving (3 savers: simulated) is executed as a "
+                "schedule on real threads calling write_writer, released yield point by yield point through the "
+                "cfg(umya_verif) hooks; TLC validates each step's control point and the decoded output files.",
+        "note": TRUST + ", pydec/sst_view.py, the cooperative scheduler of harness/src/bin/sst.rs. Granularity = the hook's "
+                        "yield points; code between two yield points is assumed not to touch state shared between savers.",
+        "technique": "explicit TLA+ spec (ConcSave.tla) model-checked with TLC (safety + liveness); TLC-enumerated schedules "
+                     "replayed on real threads via source hooks; traces validated by TLC",
     },
 }
 
